@@ -648,6 +648,12 @@ class _NameChecks(SyntaxRule):
         self._normalizer.context.add_name(leaf)
 
         if leaf.value == '__debug__' and leaf.is_definition():
+            if leaf.get_definition().type == 'del_stmt':
+                # Deleting is an error only for the name itself (not for an
+                # attribute) and only since Python 3.10.
+                if leaf.parent.type != 'trailer' and self._normalizer.version >= (3, 10):
+                    self.add_issue(leaf, message='cannot delete __debug__')
+                return False
             return True
 
 
